@@ -16,27 +16,27 @@ open Rxn Runner
 /-- **per-operator stream**: at every moment of every schedule, what operator `q` has been handed, followed by what
 the runner still holds for it (in the sender's hand, in `q`'s batcher, in the current placeholder's work list, and in
 the not yet processed part of `outputStream`), is exactly the read order restricted to `q` -/
-theorem per_operator_stream {ρ : Type} (c : Cfg ρ) (maxSize : Nat) (hasDelay : Bool) (as : List (Act ρ)) (s : St ρ)
+theorem per_operator_stream {ρ : Type} (c : Cfg ρ) (hunbuf : c.handoffBuffered = false) (maxSize : Nat) (hasDelay : Bool) (as : List (Act ρ)) (s : St ρ)
     (hrun : exec c (init maxSize hasDelay) as = some s) (q : Nat) (hq : q < c.nOps) :
     delivered s q ++ pendingFor s q ++ project c q s.stream = project c q (logicalOf as) := by
-  obtain ⟨h, hl⟩ := exec_inv c as _ s (init_inv c maxSize hasDelay) hrun
+  obtain ⟨h, hl⟩ := exec_inv c hunbuf as _ s (init_inv c maxSize hasDelay) hrun
   have := h.main q hq
   rw [hl] at this
   simpa [init] using this
 
 /-- so the delivered stream is always a prefix of the specification: nothing is duplicated, reordered or invented -/
-theorem delivery_prefix {ρ : Type} (c : Cfg ρ) (maxSize : Nat) (hasDelay : Bool) (as : List (Act ρ)) (s : St ρ)
+theorem delivery_prefix {ρ : Type} (c : Cfg ρ) (hunbuf : c.handoffBuffered = false) (maxSize : Nat) (hasDelay : Bool) (as : List (Act ρ)) (s : St ρ)
     (hrun : exec c (init maxSize hasDelay) as = some s) (q : Nat) (hq : q < c.nOps) :
     ∃ rest, delivered s q ++ rest = project c q (logicalOf as) :=
   ⟨pendingFor s q ++ project c q s.stream, by
-    rw [← List.append_assoc]; exact per_operator_stream c maxSize hasDelay as s hrun q hq⟩
+    rw [← List.append_assoc]; exact per_operator_stream c hunbuf maxSize hasDelay as s hrun q hq⟩
 
 /-- and once nothing is in flight (`outputStream` consumed, batchers empty, sender idle) every operator has been handed
 its whole stream: nothing is lost -/
-theorem delivery_complete {ρ : Type} (c : Cfg ρ) (maxSize : Nat) (hasDelay : Bool) (as : List (Act ρ)) (s : St ρ)
+theorem delivery_complete {ρ : Type} (c : Cfg ρ) (hunbuf : c.handoffBuffered = false) (maxSize : Nat) (hasDelay : Bool) (as : List (Act ρ)) (s : St ρ)
     (hrun : exec c (init maxSize hasDelay) as = some s) (hquiet : quiescent s) (q : Nat) (hq : q < c.nOps) :
     delivered s q = project c q (logicalOf as) := by
-  have h := per_operator_stream c maxSize hasDelay as s hrun q hq
+  have h := per_operator_stream c hunbuf maxSize hasDelay as s hrun q hq
   obtain ⟨h1, h2, h3, h4⟩ := hquiet
   have hp : pendingFor s q = [] := by
     simp only [pendingFor, inHand, h2, h4 q]
@@ -46,11 +46,11 @@ theorem delivery_complete {ρ : Type} (c : Cfg ρ) (maxSize : Nat) (hasDelay : B
 
 /-- **exactly once**: after a failure-free run a keyed event has been handed to the operator its key routes to as
 often as the user's key function produced it, and to no other operator -/
-theorem exactly_once {ρ : Type} (c : Cfg ρ) (maxSize : Nat) (hasDelay : Bool) (as : List (Act ρ)) (s : St ρ)
+theorem exactly_once {ρ : Type} (c : Cfg ρ) (hunbuf : c.handoffBuffered = false) (maxSize : Nat) (hasDelay : Bool) (as : List (Act ρ)) (s : St ρ)
     (hrun : exec c (init maxSize hasDelay) as = some s) (hquiet : quiescent s) (q : Nat) (hq : q < c.nOps) (e : KEv) :
     (delivered s q).count (.keyed e) =
       if c.route e.key = q then (expand c (logicalOf as)).count (.keyed e) else 0 := by
-  rw [delivery_complete c maxSize hasDelay as s hrun hquiet q hq, project]
+  rw [delivery_complete c hunbuf maxSize hasDelay as s hrun hquiet q hq, project]
   by_cases h : c.route e.key = q
   · rw [if_pos h, List.count_filter]; simp [keep, h]
   · rw [if_neg h]
@@ -61,22 +61,22 @@ theorem exactly_once {ρ : Type} (c : Cfg ρ) (maxSize : Nat) (hasDelay : Bool) 
 
 /-- **order**: what an operator is handed is a subsequence of the read order — two events of the same split and key
 (same operator) arrive in the order the split produced them, and barriers/watermarks keep their place among them -/
-theorem order_preserved {ρ : Type} (c : Cfg ρ) (maxSize : Nat) (hasDelay : Bool) (as : List (Act ρ)) (s : St ρ)
+theorem order_preserved {ρ : Type} (c : Cfg ρ) (hunbuf : c.handoffBuffered = false) (maxSize : Nat) (hasDelay : Bool) (as : List (Act ρ)) (s : St ρ)
     (hrun : exec c (init maxSize hasDelay) as = some s) (q : Nat) (hq : q < c.nOps) :
     (delivered s q).Sublist (expand c (logicalOf as)) := by
-  obtain ⟨rest, h⟩ := delivery_prefix c maxSize hasDelay as s hrun q hq
+  obtain ⟨rest, h⟩ := delivery_prefix c hunbuf maxSize hasDelay as s hrun q hq
   have h1 : (delivered s q).Sublist (project c q (logicalOf as)) := by
     rw [← h]; exact List.sublist_append_left _ _
   exact h1.trans List.filter_sublist
 
 /-- **barriers (and watermarks) never overtake**: if the read order is `A`, then the broadcast `b`, then `B`, and
 operator `q` has been handed `b`, then before it `q` was handed exactly the part of `A` meant for it, in order -/
-theorem broadcast_never_overtakes {ρ : Type} (c : Cfg ρ) (maxSize : Nat) (hasDelay : Bool) (as : List (Act ρ)) (s : St ρ)
+theorem broadcast_never_overtakes {ρ : Type} (c : Cfg ρ) (hunbuf : c.handoffBuffered = false) (maxSize : Nat) (hasDelay : Bool) (as : List (Act ρ)) (s : St ρ)
     (hrun : exec c (init maxSize hasDelay) as = some s) (q : Nat) (hq : q < c.nOps)
     (A B : List Ev) (b : Ev) (hb : keep c q b = true) (hsplit : expand c (logicalOf as) = A ++ b :: B)
     (hfirst : b ∉ A) (hgot : b ∈ delivered s q) :
     ∃ rest, delivered s q = A.filter (keep c q) ++ b :: rest := by
-  obtain ⟨rest, h⟩ := delivery_prefix c maxSize hasDelay as s hrun q hq
+  obtain ⟨rest, h⟩ := delivery_prefix c hunbuf maxSize hasDelay as s hrun q hq
   rw [project, hsplit, List.filter_append, List.filter_cons, if_pos hb] at h
   rcases List.append_eq_append_iff.mp h with ⟨a', h1, h2⟩ | ⟨c', h1, h2⟩
   · -- delivered is a prefix of A.filter: then b would be in A
@@ -106,5 +106,26 @@ def demoSchedule : List (Act (Nat × Nat)) :=
 
 example : (exec demoCfg (init 2 true) demoSchedule).map (fun s => (delivered s 0, delivered s 1, s.stream.length, s.todo.length)) =
     some ([.keyed ⟨[], 1, 0⟩, .barrier 7, .keyed ⟨[], 3, 0⟩], [.keyed ⟨[0], 2, 0⟩, .barrier 7], 0, 0) := by decide
+
+/-! negative witness: the theorems are about the *unbuffered* hand-off of `batchingOperator` (the router blocks until
+the operator goroutine takes the batch). With a one-slot channel a full batch can sit in the channel while the
+following partial batch times out, and the operator goroutine may handle the newer one first. -/
+
+def bufCfg : Cfg Nat :=
+  { nOps := 1, route := fun _ => 0, keyOf := fun r => [{ key := [], src := r, idx := 0 }], handoffBuffered := true }
+
+def bufSchedule : List (Act Nat) :=
+  [.readRec 1, .readRec 2, .readRec 3, .readRec 4, .readRec 5, .rfEmit, .rfEmit, .rfEmit, .rfEmit, .rfEmit,
+   .sTake, .sAdd, .sIsFull, .sTake, .sAdd, .sIsFull, .sFlush, .sSend, .oRecv 0,          -- batch {1,2}: operator busy
+   .sTake, .sAdd, .sIsFull, .sTake, .sAdd, .sIsFull, .sFlush, .sSend,                    -- batch {3,4} waits in the channel
+   .sTake, .sAdd, .sIsFull, .fire 0, .oDone 0, .oTok 0, .oTFlush 0, .oDone 0, .oRecv 0]   -- {5} times out and overtakes
+
+theorem buffered_handoff_reorders :
+    (exec bufCfg (init 2 true) bufSchedule).map (fun s => (delivered s 0).map (fun e => match e with | .keyed k => k.src | _ => 0))
+      = some [1, 2, 5, 3, 4] := by decide
+
+/-- the same schedule is not a schedule of the code: the router cannot go on while its batch has not been taken -/
+theorem unbuffered_handoff_blocks :
+    (exec { bufCfg with handoffBuffered := false } (init 2 true) bufSchedule).isSome = false := by decide
 
 end Rxn.C04
